@@ -7,7 +7,7 @@ import re
 from rustcut import AnchorLost, code_mask, match_brace
 
 CLAUSE_KEYS = ('requires', 'ensures', 'decreases', 'invariant', 'invariant_except_break',
-               'proof_entry', 'proof_loop_entry', 'external_body', 'loop_ensures', 'opaque_body')
+               'proof_entry', 'proof_loop_entry', 'external_body', 'loop_ensures', 'opaque_body', 'fuel')
 
 
 class SpecError(Exception):
@@ -108,7 +108,7 @@ def resolve_marks(name, body, text):
     return re.sub(r'\$m(\d+)', rep, text)
 
 
-def weave_body(name, body, loops_spec, proof_entry, used):
+def weave_body(name, body, loops_spec, proof_entry, used, fn_need=None):
     loops = find_loops(body)
     orig_body = body
     # a @loop entry whose loop no longer exists is dropped (recorded by assemble), not fatal: the function is then
@@ -122,6 +122,17 @@ def weave_body(name, body, loops_spec, proof_entry, used):
             continue
         used.add((name, k))
         sp = {key: resolve_marks(name, orig_body, val) for key, val in sp.items()}
+        if sp.get('fuel'):
+            # `fuel Nh Ah Ne Ae`: fuel_ok(.., Nh, Ah) at the loop head (before the condition is evaluated),
+            # fuel_ok(.., Ne, Ae) at every exit (condition false or break): the look-aheads of the condition and of the
+            # iteration that breaks are spent by then
+            v = 'self' if name.startswith('Parser::') else 'p'
+            nh, ah, ne, ae = sp['fuel'].split()[:4]
+            sp = dict(sp)
+            sp['invariant_except_break'] = (sp.get('invariant_except_break', '').rstrip(',') + ', ' if sp.get('invariant_except_break') else '') + 'fuel_ok(*old(%s), *%s, %s, %s)' % (v, v, nh, ah)
+            sp['loop_ensures'] = (sp.get('loop_ensures', '').rstrip(',') + ', ' if sp.get('loop_ensures') else '') + 'fuel_ok(*old(%s), *%s, %s, %s)' % (v, v, ne, ae)
+            if fn_need is not None:
+                sp['invariant'] = (sp.get('invariant', '').rstrip(',') + ', ' if sp.get('invariant') else '') + 'old(%s).fuel >= %s' % (v, fn_need)
         clauses = []
         for key in ('invariant_except_break', 'invariant'):
             if sp.get(key):
@@ -162,6 +173,11 @@ def candidate_contract(item):
                      'EXPR_FIRST_spec(old(%s).cur()) ==> prog(*old(%s), *final(%s))' % (v, v, v),
                      'PATTERN_FIRST_spec(old(%s).cur()) ==> prog(*old(%s), *final(%s))' % (v, v, v),
                      'TYPE_FIRST_spec(old(%s).cur()) ==> prog(*old(%s), *final(%s))' % (v, v, v)]}
+    # fuel accounting (R10): descending chain of entry requirements, grids of no-progress / after-last-bump bounds
+    c['requires'] += ['old(%s).fuel >= %d' % (v, k) for k in (1, 2, 3, 4, 6, 8, 10)]
+    c['ensures'] += ['final(%s).pos == old(%s).pos ==> final(%s).fuel >= old(%s).fuel - %d' % (v, v, v, v, n) for n in (0, 1, 2, 3, 4, 6, 8, 10)]
+    c['ensures'] += ['final(%s).pos > old(%s).pos ==> final(%s).fuel >= FUEL - (%d + 9 * (MAX_DEPTH + 1 - old(%s).depth))' % (v, v, v, a, v)
+                     for a in (0, 1, 2, 3, 4, 6, 8, 10, 12, 16)]
     for m in marks:
         c['fixed_requires'] += ['open_at(*old(%s), %s)' % (v, m), 'depth(old(%s).events@) >= 1' % v]
     for m in closed:
@@ -196,6 +212,17 @@ def emit_fn(item, fns_spec, loops_spec, used_fn, used_loop, defaulted, inferred=
     else:
         used_fn.add(item.name)
     header, has_ret = name_return(item.header)
+    fn_need = None
+    if sp.get('fuel'):
+        # `fuel R N A`: the function needs R units of fuel at entry (look-aheads before its first consumed token);
+        # a run that consumes nothing spends at most N; after the last consumed token at most
+        # A + FUEL_U * (levels of nesting left) look-aheads happen before it returns
+        v = 'self' if item.owner == 'Parser' else 'p'
+        need, pre, a = sp['fuel'].split()[:3]
+        fn_need = need
+        sp = dict(sp)
+        sp['requires'] = (sp.get('requires', '').rstrip(',') + ', ' if sp.get('requires') else '') + 'old(%s).fuel >= %s' % (v, need)
+        sp['ensures'] = (sp.get('ensures', '').rstrip(',') + ', ' if sp.get('ensures') else '') + 'fuel_ok(*old(%s), *final(%s), %s, %s)' % (v, v, pre, a)
     lines = []
     if 'external_body' in sp:
         lines.append('#[verifier::external_body]')
@@ -203,7 +230,7 @@ def emit_fn(item, fns_spec, loops_spec, used_fn, used_loop, defaulted, inferred=
     for key in ('requires', 'ensures', 'decreases'):
         if sp.get(key):
             lines.append('    %s %s' % (key, sp[key].rstrip(',') + ','))
-    body = weave_body(item.name, item.body, loops_spec, sp.get('proof_entry'), used_loop)
+    body = weave_body(item.name, item.body, loops_spec, sp.get('proof_entry'), used_loop, fn_need)
     return '\n'.join(lines) + '\n' + body + '\n'
 
 
@@ -251,6 +278,7 @@ def assemble(ex, prelude, fns_spec, loops_spec, stubs, top=None, inferred=None):
     chunks = []   # (text, item or None)
     chunks.append(('use vstd::prelude::*;\nverus! {\n', None))
     chunks.append((stubs + '\n', None))
+    chunks.append(('spec const FUEL: int = %d; // the literal Parser::bump resets the progress-guard fuel to (R10)\n' % ex['fuel_reset'], None))
     chunks.append((prelude + '\n', None))
     items = ex['items']
     for it in items:
